@@ -142,6 +142,70 @@ def rle_frames(draw, n, per_frame):
     return [next(it) if p else None for p in m]
 
 
+LONG_N = [257, 1025, 4097, 8192, 10000, 16384, 65536 + 40, 70000, 131072 + 7]
+BOUNDARIES = [256, 1024, 4096, 8192, 16384, 65536, 131072]
+
+
+@st.composite
+def long_mask(draw, n):
+    """presence masks for long tracks: long runs, with gaps that start or end exactly at power-of-two frame numbers"""
+    m = [True] * n
+    mode = draw(st.sampled_from(["full", "boundary", "boundary", "many-runs", "sparse-gaps"]))
+    if mode == "boundary":
+        for B in [b for b in BOUNDARIES if b < n]:
+            how = draw(st.sampled_from(["none", "before", "after", "across", "single-before", "single-at"]))
+            k = draw(st.integers(1, 40))
+            lo, hi = {"none": (0, 0), "before": (B - k, B), "after": (B, B + k), "across": (B - k, B + k),
+                      "single-before": (B - 1, B), "single-at": (B, B + 1)}[how]
+            for i in range(max(0, lo), min(n, hi)):
+                m[i] = False
+    elif mode == "many-runs":
+        step = draw(st.integers(2, 5))      # hundreds / thousands of runs
+        for i in range(0, n, step):
+            m[i] = False
+    elif mode == "sparse-gaps":
+        seed = draw(st.integers(0, 2 ** 32 - 1))
+        for j in range(draw(st.integers(1, 30))):
+            p = mix(seed, j) % n
+            for i in range(p, min(n, p + 1 + mix(seed, 1000 + j) % 9)):
+                m[i] = False
+    return m
+
+
+@st.composite
+def long_rle_spec(draw, t):
+    """a block of a run-length coded type with 1-2 LONG tracks"""
+    n = draw(st.sampled_from(LONG_N if t != "force3D" else LONG_N[:6]))
+    k = draw(st.integers(1, 2)) if n < 20000 else 1
+    pf = PER_FRAME[t]
+    items = []
+    for i in range(k):
+        m = draw(long_mask(n))
+        seed = draw(st.integers(0, 2 ** 32 - 1))
+        if pf == 1:
+            frames = [finite32(mix(seed, j) >> 16) if p else None for j, p in enumerate(m)]
+        else:
+            frames = [[finite32(mix(seed, j * pf + c) >> 16) for c in range(pf)] if p else None for j, p in enumerate(m)]
+        it = {"frames": frames}
+        if t != "platData":
+            it["label"] = f"long{i}"
+        if t in ("emg", "platData"):
+            it["channel"] = i
+        items.append(it)
+    base = {"data3D": {"t": t, "format": draw(st.sampled_from([1, 2])), "nFrames": n, "frequency": 100, "startTime": 0, "volume": [0] * 3, "rot": [0] * 9,
+                       "trans": [0] * 3, "flag": 0, "tracks": items},
+            "emg": {"t": t, "format": 1, "frequency": 1000, "startTime": 0, "nSamples": n, "signals": items, "_chmode": "explicit"},
+            "force3D": {"t": t, "format": 1, "frequency": 100, "startTime": 0, "nFrames": n, "volume": [0] * 3, "rot": [0] * 9, "trans": [0] * 3, "tracks": items},
+            "platData": {"t": t, "format": 1, "frequency": 100, "startTime": 0, "nFrames": n, "plats": items, "_chmode": "explicit"}}[t]
+    if t == "data3D":
+        base["links"] = [] if base["format"] == 1 else None
+    return base
+
+
+def long_block_case(tier):
+    return st.sampled_from(RLE_TYPES).flatmap(lambda t: st.fixed_dictionaries({"spec": long_rle_spec(t), "hints": HINTS}))
+
+
 HINTS = st.fixed_dictionaries({
     "dtype": st.sampled_from(["<f4", "<f4", "<f8", ">f4", ">f8"]),
     "order": st.sampled_from(["C", "C", "F", "rev"]),
@@ -283,9 +347,14 @@ def spec_events(draw, tier, min_items=0):
     z = sizes(tier)
     k = draw(st.integers(min_items, z["items"]))
     evs = []
-    for _ in range(k):
+    huge = k and draw(st.integers(0, 30)) == 0
+    for i in range(k):
         typ = draw(st.integers(0, 1))
-        vals = draw(st.lists(f32bits, max_size=1)) if typ == 0 else draw(st.lists(f32bits, max_size=z["cells"] * 2))
+        if huge and i == k - 1:
+            typ = 1
+            vals = draw(sample_values(draw(st.sampled_from([65535, 65536, 65539, 70000])), 1))  # count does not fit 16 bits
+        else:
+            vals = draw(st.lists(f32bits, max_size=1)) if typ == 0 else draw(st.lists(f32bits, max_size=z["cells"] * 2))
         evs.append({"label": draw(labels(256)), "type": typ, "values": vals})
     return {"t": "events", "format": 1, "startTime": draw(f32bits), "events": evs}
 
